@@ -21,6 +21,10 @@ pub struct ClientArgs {
     /// further documented options, as a bit set: 1 = -d (text dump on stderr), 2 = -o <file> (requests also written to
     /// a file), 4 = -O <file> (responses also written to a file)
     pub opts: u8,
+    /// false: the mock listens on 127.0.0.1 and the client asks 127.0.0.1. true: the mock listens on 0.0.0.0 and the
+    /// client is told to ask 127.0.0.2 — the reply then comes FROM 127.0.0.1 (the address the kernel picks for a
+    /// wildcard-bound socket), as with a multi-homed server
+    pub via_alias: bool,
 }
 
 #[derive(Debug, Clone)]
@@ -66,7 +70,7 @@ pub enum LabErr {
 /// the datagrams to deliver to that request's source socket (usually exactly one).
 pub fn run_client(args: &ClientArgs, mut respond: impl FnMut(&[Vec<u8>]) -> Vec<Vec<Vec<u8>>>) -> Result<ClientRun, LabErr> {
     let start = Instant::now();
-    let mock = UdpSocket::bind("127.0.0.1:0").map_err(|e| LabErr::Harness(format!("bind mock: {}", e)))?;
+    let mock = UdpSocket::bind(if args.via_alias { "0.0.0.0:0" } else { "127.0.0.1:0" }).map_err(|e| LabErr::Harness(format!("bind mock: {}", e)))?;
     mock.set_read_timeout(Some(Duration::from_millis(50))).unwrap();
     let port = mock.local_addr().unwrap().port();
     let mut cmd = Command::new(CLIENT_BIN);
@@ -107,7 +111,7 @@ pub fn run_client(args: &ClientArgs, mut respond: impl FnMut(&[Vec<u8>]) -> Vec<
             cmd.arg("-O").arg(d.join("responses.bin"));
         }
     }
-    cmd.arg("127.0.0.1").arg(port.to_string());
+    cmd.arg(if args.via_alias { "127.0.0.2" } else { "127.0.0.1" }).arg(port.to_string());
     cmd.env("RUST_BACKTRACE", "0").env("TZ", args.local_tz.as_deref().unwrap_or("UTC")).stdin(Stdio::null()).stdout(Stdio::piped()).stderr(Stdio::piped());
     let mut child = cmd.spawn().map_err(|e| LabErr::Harness(format!("spawn {}: {}", CLIENT_BIN, e)))?;
     let mut so = child.stdout.take().unwrap();
